@@ -33,7 +33,7 @@ func (c16) Rule() string {
 		"Oracle (closed-form layout model): NewOrigin(p).String() == model block; len == toOriginLength(n) == 10*ceil(n/60)+ceil(n/10)+n; fromOriginLength(len) == n; Len() == n before and after Bytes(); Bytes() == p; " +
 		"an undecoded Origin over the model block has Len() == n and Bytes() == p; the fast validator accepts the LF block, the slow parser accepts the LF block and its CRLF twin and the Origin it yields decodes to p; " +
 		"a hand-written minimal GenBank record with that ORIGIN read through seqio.NewAutoScanner gives Len == n and Bytes == p for LF and CRLF; malformed twins: both paths must reject and nothing may panic (the scanner is only watched for panics on them); a twin whose declared length ends at a line end with whole surplus lines after it (an intact block for the block readers) is read as a record with LF and with CRLF line ends: both must be rejected, or both read with the same residues. " +
-		"index widths: NewOrigin of 10^(w-1)+81 residues for w = 5..9 must equal the model block byte for byte, report Len() == n and decode to the residues. streams: 2..4 hand-written records (LF: fast path, CRLF: slow path) scanned to the end first, then every record decoded: Len() and Bytes() of each must be its own. non-trivial: at least one residue (n >= 1) or a length-function range; distinct: canonical case text (kind, n, alphabet, sub-seed, malformation parameters). After decoding, the scanned record is derived through WithFeatures / WithTopology / WithInfo: Len, residues and printed block unchanged; a sixth malformed twin has an empty line before line k. Records that name a CONTIG and carry residues as well are written and read back."
+		"index widths: NewOrigin of 10^(w-1)+81 residues for w = 5..9 must equal the model block byte for byte, report Len() == n and decode to the residues. streams: 2..4 hand-written records (LF: fast path, CRLF: slow path) scanned to the end first, then every record decoded: Len() and Bytes() of each must be its own. non-trivial: at least one residue (n >= 1) or a length-function range; distinct: canonical case text (kind, n, alphabet, sub-seed, malformation parameters). After decoding, the scanned record is derived through WithFeatures / WithTopology / WithInfo: Len, residues and printed block unchanged; a sixth malformed twin has an empty line before line k. Records that name a CONTIG and carry residues as well are written and read back. A seventh twin pads one line or every line with 1..9 blanks: the LF record and its CRLF twin are read alike (judged at record level only)."
 }
 
 func (c16) Assumptions() []string {
@@ -45,7 +45,7 @@ func (c16) Assumptions() []string {
 	}
 }
 
-var c16NegKinds = []string{"too-many", "too-few", "wrong-index", "missing-sep", "non-printable", "empty-line"}
+var c16NegKinds = []string{"too-many", "too-few", "wrong-index", "missing-sep", "non-printable", "empty-line", "trailing-blanks"}
 var c16IdxVariants = []string{"plus1", "zero-based", "plus60", "left-aligned", "zero-padded", "8-columns", "10-columns"}
 var c16BadBytes = []byte{0, 9, 31, 32, 127, 128, 255}
 
@@ -520,6 +520,8 @@ func (k c16Neg) String() string {
 		return fmt.Sprintf("missing-sep group=%d", k.group)
 	case "empty-line":
 		return fmt.Sprintf("empty-line before line=%d", k.line)
+	case "trailing-blanks":
+		return fmt.Sprintf("trailing-blanks line=%d (every line when negative) count=%d", k.line, k.delta)
 	}
 	return fmt.Sprintf("non-printable residue=%d byte=%d", k.pos, k.b)
 }
@@ -564,6 +566,16 @@ func (k c16Neg) apply(p []byte) ([]byte, int) {
 		out := append([]byte(nil), block[:at]...)
 		out = append(out, '\n')
 		return append(out, block[at:]...), n
+	case "trailing-blanks":
+		// card-image files: lines padded with blanks (one line, or all of them).
+		var out []byte
+		for li, l := range bytes.SplitAfter(block, []byte("\n")) {
+			if len(l) > 0 && l[len(l)-1] == '\n' && (k.line < 0 || li == k.line) {
+				l = append(append(append([]byte(nil), l[:len(l)-1]...), bytes.Repeat([]byte(" "), k.delta)...), '\n')
+			}
+			out = append(out, l...)
+		}
+		return out, n
 	case "missing-sep":
 		l, g := k.group/6, k.group%6
 		at := c16LineStart(l) + model.OriginLineWidth + 11*g
@@ -593,7 +605,11 @@ func (m c16) negative(c *fw.Ctx, n int, alpha string, sub int64, k c16Neg) {
 	for len(text) < model.OriginLen(d)+16 {
 		text = append(text, "LOCUS       NEXT\n"...)
 	}
-	if model.OriginRead(text, d, false, false).Accept {
+	if k.kind == "trailing-blanks" || model.OriginRead(text, d, false, false).Accept {
+		// (lines padded with blanks: the fast validator wants the exact layout
+		// and hands such a block to the line-by-line reader, which tolerates the
+		// padding - that is the reader's own division of labour, not a
+		// disagreement. What counts is the record: read alike with LF and CRLF.)
 		// e.g. fewer residues declared than present with the declared count a
 		// multiple of 60: the declared block is intact and followed by extra
 		// lines; what follows a block is not the block readers' business.
@@ -603,7 +619,12 @@ func (m c16) negative(c *fw.Ctx, n int, alpha string, sub int64, k c16Neg) {
 		// read, and on its residues.
 		c.Begin(enc)
 		c.Count(enc, true)
-		c.Bucket("malformed:intact-declared-block-then-surplus-lines")
+		if k.kind == "trailing-blanks" {
+			c.Bucket("neg|trailing-blanks|LF")
+			c.Bucket("neg|trailing-blanks|CRLF")
+		} else {
+			c.Bucket("malformed:intact-declared-block-then-surplus-lines")
+		}
 		type res struct {
 			n   int
 			err bool
@@ -829,6 +850,7 @@ func (m c16) sweepOne(c *fw.Ctx, n int) {
 		{kind: "missing-sep", group: (n * 31) % groups},
 		{kind: "non-printable", pos: (n * 17) % n, b: c16BadBytes[n%len(c16BadBytes)]},
 		{kind: "empty-line", line: (n / 5) % lines},
+		{kind: "trailing-blanks", line: []int{-1, (n / 3) % lines}[n%2], delta: 1 + n%9},
 	}
 	if n%60 == 0 {
 		// whole surplus lines: the declared length ends exactly at a line end,
